@@ -457,3 +457,20 @@ V("c01-result-type-dtype", "C01", "fire", LG, "        variances = self.variance
 V("c02-cancelling-source-shortcut", "C02", "fire", AN, "                assignment = np.transpose(self.assignments[i](X[:, self.A[:, i] != 0]))\n", "                if self.A[:, i].sum() == 0:\n                    assignment = 0\n                else:\n                    assignment = np.transpose(self.assignments[i](X[:, self.A[:, i] != 0]))\n", rule="PAT", what="parentless shortcut decided by the signed column sum")
 V("c02-set-order-parents", "C02", "fire", AN, "                assignment = np.transpose(self.assignments[i](X[:, self.A[:, i] != 0]))\n", "                parents = list(utils.pa(i, self.A))\n                assignment = np.transpose(self.assignments[i](X[:, parents]))\n", rule="CASES", what="parent columns in set-iteration order")
 V("c10-pattern-chain-test", "C10", "fire", UT, "    return (A == chain_graph(p)).all()", "    return ((A != 0) == (chain_graph(p) != 0)).all()", rule="PAT", what="pattern-based chain test lets weighted chains into the value-comparing shortcut")
+
+# ------------------------------------------------------------------------------- more seed-inspired variants
+V("c14-shared-zero-buffer", "C14", "fire", NO, "def zero():\n    return lambda n: np.zeros(n)", "_ZEROS = np.zeros(4096)\n\n\ndef zero():\n    return lambda n: _ZEROS[:n] if n <= len(_ZEROS) else np.zeros(n)", rule="M4", what="factory hands out views of one module-level buffer")
+V("c14-cached-observational", "C14", "fire", LG, "        distribution = NormalDistribution(mean, covariance)\n", "        distribution = NormalDistribution(mean, covariance)\n        self._last = distribution\n", rule="M2.rebind", what="sample caches state on the model")
+V("c14-parse-writes-caller-dict", "C14", "fire", LG, "            interventions.append([target, params, 0])", "            interventions_dict[target] = (params, 0)\n            interventions.append([target, params, 0])", rule="M", what="the caller's intervention dict is rewritten")
+V("c04-pointmass-postprocessing", "C04", "fire", ND, "        return np.random.multivariate_normal(self.mean, self.covariance, size=n)", "        X = np.random.multivariate_normal(self.mean, self.covariance, size=n)\n        const = np.where(self.covariance.sum(axis=0) == 0)[0]\n        X[:, const] = self.mean[const]\n        return X", rule="NODECISION", what="point masses detected by a signed column sum")
+V("c06-mse-snapped-to-zero", "C06", "fire", ND, "        return mse\n", "        return 0.0 if np.isclose(mse, 0) else mse\n", rule="FORMULA.mse", what="tiny residual variances reported as 0")
+V("c12-skip-empty-intervention", "C12", "fire", GE, "            intervention = list(rng.choice(list(remaining_targets), size=sizes[i], replace=False))\n", "            if sizes[i] == 0:\n                continue\n            intervention = list(rng.choice(list(remaining_targets), size=sizes[i], replace=False))\n", rule="COUNT", what="size-0 interventions dropped: fewer than K lists")
+V("c12-max-guard-elif", "C12", "fire", GE, "    if not replace:\n        if max_size * K > p:\n            raise ValueError(\n                \"Cannot sample targets without replacement for the given intervention size and number of interventions.\")\n    # Check max size condition\n    if max_size > p:",
+  "    if not replace:\n        if max_size * K > p:\n            raise ValueError(\n                \"Cannot sample targets without replacement for the given intervention size and number of interventions.\")\n    # Check max size condition\n    elif max_size > p:", rule="GUARD.max-size", what="max-size check skipped without replacement (K = 0)")
+V("c17-negative-offset-remainder", "C17", "fire", UT, "                fold_sample = sample[start::]\n", "                remaining = max(n - start, 0)\n                fold_sample = sample[-remaining:]\n", rule="CONTIG", what="sample[-0:] is the whole sample")
+V("c13-do-draws-before-seed", "C13", "fire", AN, "        # Set random state (if requested)\n        np.random.seed(random_state) if random_state is not None else None\n", "        do_draws = dict((i, f(n)) for i, f in do_interventions.items())\n        # Set random state (if requested)\n        np.random.seed(random_state) if random_state is not None else None\n", rule="R1.global", what="draws hoisted above the seeding line")
+V("c15-closure-by-weight-powers", "C15", "fire", UT, "    closure = np.zeros_like(A)\n    for i in range(len(A)):\n        desc = list(descendants(i, A) - {i})\n        closure[i, desc] = 1\n    return closure", "    walks = np.zeros_like(A)\n    power = A.copy()\n    for _ in range(len(A) - 1):\n        walks = walks + power\n        power = power @ A\n    return (walks != 0).astype(A.dtype)", rule="CLOSURE", what="reachability from powers of the weights: cancelling routes vanish")
+V("c19-fit-unsorted-parents", "C19", "fire", SE, "X = pd.DataFrame(self._data[k][:, sorted(parents)])", "X = pd.DataFrame(self._data[k][:, list(parents)])", rule="SLOTS.writer", what="forest fitted on parents in set order, queried in sorted order")
+V("c20-uniform-falsy-bound", "C20", "fire", NO, "def uniform(lo=0, hi=1):\n    return lambda n: np.random.uniform(lo, hi, n)", "def uniform(lo=None, hi=None):\n    lo, hi = lo or 0, hi or 1\n    return lambda n: np.random.uniform(lo, hi, n)", rule="SLOTS.uniform", what="an upper bound of exactly 0 is replaced by 1")
+V("c11-inverse-relabelling", "C11", "fire", GE, "    permutation = rng.permutation(p)\n    # Note the actual topological ordering is the \"conjugate\" of permutation eg. [3,1,2] -> [2,3,1]\n    if return_ordering:\n        return (W[permutation, :][:, permutation], np.argsort(permutation))\n    else:\n        return W[permutation, :][:, permutation]",
+  "    permutation = rng.permutation(p)\n    permuted = np.zeros_like(W)\n    permuted[np.ix_(permutation, permutation)] = W\n    if return_ordering:\n        return (permuted, np.argsort(permutation))\n    else:\n        return permuted", rule="PERM", what="graph relabelled with the inverse permutation, ordering unchanged")
